@@ -177,8 +177,11 @@ func (g *gen) call(instr ssa.Instruction, c *ssa.CallCommon, pos token.Pos) Val 
 							skip = true
 						}
 					}
-					if !skip && !strings.HasPrefix(args[i].T, "(- ") {
+					if !skip && !strings.HasPrefix(args[i].T, "(- ") && !(isAstPtr(p.Type()) && g.e.nilableParam(callee, i)) {
 						g.obligeAndAssume("nilarg", g.label(pos, callee.Name(), "call")+" arg "+p.Name(), not(eq(args[i].T, "0")), pos)
+						if isAstPtr(p.Type()) && len(g.obls) > 0 {
+							g.obls[len(g.obls)-1].Meta = fmt.Sprintf("nilparam:%s#%d", funcKey(callee), i)
+						}
 					}
 				}
 			}
@@ -191,6 +194,9 @@ func (g *gen) call(instr ssa.Instruction, c *ssa.CallCommon, pos token.Pos) Val 
 				g.declTnode()
 				if isAstPtr(p.Type()) && args[i].Sort == "Int" {
 					claim := app("tnode", args[i].T)
+					if g.e.nilableParam(callee, i) {
+						claim = or(eq(args[i].T, "0"), claim)
+					}
 					if g.e.sentinelParam(callee, i) {
 						if sent := g.sentinelFor(p.Type()); sent != "" {
 							claim = or(claim, eq(args[i].T, sent))
